@@ -744,8 +744,12 @@ pub fn c15_picky(run: u64, seed: u64) -> RunOut {
             if v % 5 == 3 {
                 sent_picky += 1;
             }
-            if wtx.send(Picky(v)).is_err() {
-                return Err("watch send failed".into());
+            if let Err(e) = wtx.send(Picky(v)) {
+                // the remote receiver is alive (the observer holds it) and the connection is healthy
+                let mut rp = replay.clone();
+                rp["observed"] = json!(seen.lock().unwrap().iter().map(|r| format!("{r:?}")).collect::<Vec<_>>());
+                out.viol("C15:closed-while-receiver-alive", format!("sending update {v} failed ({e}) although the remote receiver is alive and the connection healthy ({sent_picky} undecodable values sent before)"), rp);
+                return Ok(());
             }
             last = v;
             if k as usize % settle_every == 0 {
